@@ -27,21 +27,22 @@ var strategicOffsets = []uint32{0, 1, 2, 63, 64, 65, 127, 128, 130, 300, 4095, 4
 
 // avoidance switches for triggers of known findings / out-of-contract inputs
 type avoid struct {
-	putThenDelete    bool // put and delete of one row in one transaction (stale value left behind)
-	failInCommit     bool // failing insert inside a transaction that commits
-	mergeAfterReuse  bool // merge into a column the (reused) row holds nothing in
-	lenMergeThenPut  bool // length-changing merge followed by a put on the same row+column in one transaction
-	dupKeyInTxn      bool // two inserts of one key in one transaction
-	enumBeyond0      bool
-	lateColSparse    bool
-	aggStale         bool
-	unionAfterClear  bool
-	doubleDelete     bool
-	phantomReserved  bool
-	snapshotReserved bool
-	rollbackInsert   bool
-	sortDupKeys      bool
-	rekey            bool
+	putThenDelete       bool // put and delete of one row in one transaction (stale value left behind)
+	failInCommit        bool // failing insert inside a transaction that commits
+	mergeAfterReuse     bool // merge into a column the (reused) row holds nothing in
+	lenMergeThenPut     bool // length-changing merge followed by a put on the same row+column in one transaction
+	dupKeyInTxn         bool // two inserts of one key in one transaction
+	enumBeyond0         bool
+	lateColSparse       bool
+	aggStale            bool
+	unionAfterClear     bool
+	doubleDelete        bool
+	phantomReserved     bool
+	snapshotReserved    bool
+	concurrentKeyInsert bool
+	rollbackInsert      bool
+	sortDupKeys         bool
+	rekey               bool
 }
 
 func (a avoid) list() (out []string) {
@@ -55,15 +56,13 @@ func (a avoid) list() (out []string) {
 	add(a.mergeAfterReuse, "merge-absent")
 	add(a.lenMergeThenPut, "len-merge-put")
 	add(a.dupKeyInTxn, "dup-key-in-txn")
-	add(a.enumBeyond0, "enum-beyond-block0")
 	add(a.aggStale, "agg-missing-value")
 	add(a.unionAfterClear, "union-after-clear")
 	add(a.doubleDelete, "double-delete")
 	add(a.phantomReserved, "phantom-reserved")
 	add(a.snapshotReserved, "snapshot-reserved")
+	add(a.concurrentKeyInsert, "concurrent-key-insert")
 	add(a.rollbackInsert, "rollback-insert")
-	add(a.sortDupKeys, "sort-dup-keys")
-	add(a.rekey, "rekey")
 	return
 }
 
@@ -446,7 +445,7 @@ func (g *gen) genTxn() *TxnProg {
 				inserted = true
 			case "querykey":
 				op.Writes = g.genWrites(r.Range(0, 3), false)
-				if r.Chance(0.2) && !g.av.rekey {
+				if r.Chance(0.2) {
 					nk := g.keys[r.Intn(len(g.keys))]
 					if !(g.av.dupKeyInTxn && keysUsed[nk]) {
 						keysUsed[nk] = true
